@@ -617,9 +617,10 @@ func toDeleteNotification(n *pb.Notification, timestamp int64) *pb.Notification 
 	case n.GetAtomic():
 		d.Delete = []*pb.Path{{Elem: prefix.GetElem(), Element: prefix.GetElement()}}
 	case len(prefix.GetElem()) > 0 || len(path.GetElem()) > 0:
-		d.Delete = []*pb.Path{{Elem: append(prefix.GetElem(), path.GetElem()...)}}
+		// Copy: appending to the stored prefix's slice could write into an array shared with other notifications.
+		d.Delete = []*pb.Path{{Elem: append(append([]*pb.PathElem{}, prefix.GetElem()...), path.GetElem()...)}}
 	default:
-		d.Delete = []*pb.Path{{Element: append(prefix.GetElement(), path.GetElement()...)}}
+		d.Delete = []*pb.Path{{Element: append(append([]string{}, prefix.GetElement()...), path.GetElement()...)}}
 	}
 	return d
 }
